@@ -703,6 +703,11 @@ class Gen:
         pipe, nsc = w
         # result frame: outer frame (keys included) + derived columns
         nsc = Scope([c.clone(uniq=False) for c in keys] + [c.clone(uniq=False) for c in nsc.cols], outer.nwild)
+        if pipe[-1]["t"] == "window" and r.random() < 0.3:
+            # the other nesting: `window <frame> (group k (sort .. | derive ..))` - the frame reaches into the group
+            wt = pipe[-1]
+            g = {"t": "group", "keys": kexprs, "pipe": pipe[:-1] + wt["pipe"]}
+            return {"t": "window", "frame_src": wt["frame_src"], "frame": wt["frame"], "pipe": [g]}, nsc
         return {"t": "group", "keys": kexprs, "pipe": pipe}, nsc
 
     def win_expr(self, sc, ordered, frame):
